@@ -8,7 +8,7 @@ Local Open Scope Z_scope.
 
 (** ** closure DSL *)
 Inductive mapf := Affine (a b : Z) | MapMod (m : Z).
-Inductive filf := KeepMod (m r : Z) | KeepLt (t : Z) | KeepAll.
+Inductive filf := KeepMod (m r : Z) | KeepLt (t : Z) | KeepGe (t : Z) | KeepAll.
 Inductive flatf := Rep (k : nat) (d : Z) | RepMod (m : Z).
 Inductive fmf := SomeMod (m r a b : Z).
 
@@ -17,7 +17,7 @@ Definition wrap64 (z : Z) : Z := ((z + 9223372036854775808) mod 1844674407370955
 Definition run_map (f : mapf) (x : Z) : Z :=
   match f with Affine a b => a * x + b | MapMod m => x mod m end.
 Definition run_fil (f : filf) (x : Z) : bool :=
-  match f with KeepMod m r => (x mod m) =? r | KeepLt t => x <? t | KeepAll => true end.
+  match f with KeepMod m r => (x mod m) =? r | KeepLt t => x <? t | KeepGe t => x >=? t | KeepAll => true end.
 Fixpoint rep_from (x d : Z) (k : nat) : list Z :=
   match k with O => [] | S k' => x :: rep_from (x + d) d k' end.
 Definition run_flat (f : flatf) (x : Z) : list Z :=
